@@ -223,8 +223,9 @@ package auth
 // ---- C17: the account cache mirrors what the admin calls did ---------------------------------------
 // View of the cache: the map access key -> (account, expiry). Every operation states the whole view:
 // the touched key and "every other key is as before".
+// updateAcc writes the three mutable fields of the account it is handed and nothing else
 //@ func updateAcc
-//@   frame none
+//@   modifies args
 //@   ensures {C17} [secret] acc.Secret == ite(props.Secret != nil, old(*props.Secret), old(acc.Secret))
 //@   ensures {C17} [user-id] acc.UserID == ite(props.UserID != nil, old(*props.UserID), old(acc.UserID))
 //@   ensures {C17} [group-id] acc.GroupID == ite(props.GroupID != nil, old(*props.GroupID), old(acc.GroupID))
